@@ -232,6 +232,8 @@ def qstr(k):
 
 
 DECIMALS = ['0.1', '0.15', '0.3', '0.6', '0.7', '1.005', '2.675', '1.1', '2.3', '1234.5678', '0.000001',
+            # 16-17 significant digits, a hair off a multiple: the hair decides
+            '0.9999999999999996', '1234567890.999996', '1000000000.000004', '1234.567890999996', '4.000000000000001', '7.999999999999999',
             '0.0000005', '123456.789', '99.995', '0.05', '1.45', '8.125']
 
 
@@ -344,7 +346,9 @@ class Rounding(Sub):
         for f, vars in forms:
             o = env.evo(f, vars)
             r = getnum(o)
-            if r is None or not any(close(r, t) for t in targets):
+            # a rounding function lands ON a multiple: the result is held to a few units in the last place of the target
+            # (the general 1e-9 would accept 1234567891 for 1234567890)
+            if r is None or not any(r == t or abs(F(r) - t) <= abs(t) / 2 ** 50 for t in targets):
                 out.append(fail('%s with number %s, digits %d gives %r; expected %s (a multiple of 1e%d %s)' % (
                     f, s, d, o, ' or '.join(str(show(t)) for t in targets), -d,
                     {'ROUND': 'within half a unit', 'ROUNDUP': 'at or above in magnitude, less than a unit away',
@@ -519,7 +523,9 @@ class IntParitySign(Sub):
         for f, vars in (('%s(xn)' % fn, {'xn': v}), ('%s(%s)' % (fn, spell(s)), None)):
             o = env.evo(f, vars)
             r = getnum(o)
-            if r is None or not any(close(r, t) for t in targets):
+            # a rounding function lands ON a multiple: the result is held to a few units in the last place of the target
+            # (the general 1e-9 would accept 1234567891 for 1234567890)
+            if r is None or not any(r == t or abs(F(r) - t) <= abs(t) / 2 ** 50 for t in targets):
                 out.append(fail('%s with number %s gives %r; expected %s' % (
                     f, s, o, ' or '.join(str(t) for t in targets)), targets, o))
         return out
